@@ -30,7 +30,8 @@ m = {"merge iterator adapter":("D5",["C11","C08"]), "MergeCompact returns":("D6"
  "gets a buffer of whole blocks":("D52",["C04"]), "cut off is not the end of the records":("D53",["C20","C12","C07","C13"]),
  "legacy random-access readers check":("D54",["C04","C18","C03"]), "could not be taken back stops the log":("D55",["C07","C17","C02"]),
  "keeps returning that error":("D56",["C09","C11","C08","C16"]),
- "too long for its mapper in the slice":("D57",["C03"])}
+ "too long for its mapper in the slice":("D57",["C03"]),
+ "goes on behind the end of its stream":("D58",["C12","C04","C03"])}
 # a later fix: commit that refines an earlier one has to be reverted together with it (newest first)
 also = {"D24": ["no slice can have are rejected", "does not signal that it is done"], "D48": ["could not be taken back stops the log"], "D36": ["too long for its mapper in the slice", "cannot map"], "D46": ["too long for its mapper in the slice"], "D20": ["could not read its flag"], "D15": ["WAL sweep after a flush stays inside"], "D17": ["any over-long varint"], "D31": ["zero-padded end"], "D13": ["take the database folder itself"], "D10": ["does not share its slices", "a Put that returns an error"], "D4-D14": ["keeps only the file it is replaying"], "D19": ["checked for plausibility"], "D34": ["legacy random-access readers check", "checks older formats", "checked for plausibility"], "D42": ["legacy random-access readers check", "checks older formats"], "D9": ["release their handles when they fail"], "D19": ["legacy random-access readers check", "checks older formats", "checked for plausibility"]}
 out = os.path.join(os.path.dirname(os.path.abspath(__file__)), "revert")
